@@ -56,3 +56,47 @@ def mixed_tree(ctx, rng, p_parsed=0.5, **tgkw):
 
 def classes_of(d):
     return sorted({n["c"] for _, n in common.tree_nodes(d)})
+
+
+class SharedObjects:
+    """Long-lived library objects (transformers, printers, checkers, builders) must behave like fresh ones whatever
+    they processed before. After a case the same long-lived object (one per configuration `key`) is given the case's
+    tree and then near-identical trees (single-point mutants: another inclusiveness, numeral, value, layout ...), and
+    every answer is compared with the answer of a freshly made object. A memo keyed on a lossy digest (repr, printed
+    form, id) or state left behind by a failing call shows up as a difference."""
+
+    def __init__(self, ctx, rng, label):
+        self.ctx, self.rng, self.label = ctx, rng, label
+        self.objs = {}
+
+    @staticmethod
+    def _run(call, obj, d):
+        try:
+            return ("ok", call(obj, common.load_tree(d)))
+        except Exception as e:          # the kind of failure is part of the behaviour
+            return ("exc", type(e).__name__)
+
+    def check(self, key, make, call, d, info, mutants=2):
+        key = repr(key)
+        if key not in self.objs:
+            self.objs[key] = make()
+        shared = self.objs[key]
+        todo = [("the same tree", d)]
+        for _ in range(mutants):
+            mu = gen.mutate_tree(self.rng, d)
+            if mu is not None:
+                todo.append(("a tree differing in one point (%s)" % mu[1], mu[0]))
+        for what, dd in todo:
+            try:
+                common.load_tree(dd)
+            except Exception:
+                continue
+            want = self._run(call, make(), dd)
+            got = self._run(call, shared, dd)
+            self.ctx.count("history: long-lived %s" % self.label)
+            if got != want:
+                self.ctx.fail("a long-lived %s answers differently from a fresh one on %s (history dependence)" % (
+                    self.label, what), dict(info, second_tree=dd, fresh=want, shared=got))
+                # a polluted object would fail on everything that follows: start again
+                self.objs[key] = make()
+                shared = self.objs[key]
